@@ -20,7 +20,7 @@ use statime::port::{
 use statime::time::{Duration, Interval, Time};
 use statime::{Clock, PtpInstance, PtpInstanceState, PtpInstanceStateMutex};
 
-use crate::{catch, coq_bool, z, zu};
+use crate::{catch, coq_bool, n, nbytes, nlist, nu};
 
 thread_local! {
     static LOG: RefCell<Vec<(i64, String)>> = RefCell::new(Vec::new());
@@ -106,7 +106,7 @@ pub struct RecFilter {
 
 fn od(d: Option<Duration>) -> String {
     match d {
-        Some(d) => format!("(Some {})", z(d.nanos().to_bits())),
+        Some(d) => format!("(sz {})", n(d.nanos().to_bits())),
         None => "None".into(),
     }
 }
@@ -121,7 +121,7 @@ impl Filter for RecFilter {
             self.idx,
             format!(
                 "OFilterMeas (mkMeas {} {} {} {} {} {})",
-                zu(m.event_time.nanos().to_bits()),
+                nu(m.event_time.nanos().to_bits()),
                 od(m.offset),
                 od(m.delay),
                 od(m.peer_delay),
@@ -259,7 +259,7 @@ pub fn cid(v: u64) -> ClockIdentity {
     ClockIdentity(v.to_be_bytes())
 }
 fn cid_z(c: &ClockIdentity) -> String {
-    format!("{}", u64::from_be_bytes(c.0))
+    nu(u64::from_be_bytes(c.0) as u128)
 }
 fn pi_coq(p: &statime::config::ClockIdentity, port: u16) -> String {
     format!("(mkPI {} {})", cid_z(p), port)
@@ -278,7 +278,7 @@ fn tp_coq(tp: &TimePropertiesDS) -> String {
     format!(
         "(mkTP {} {} {} {} {} {})",
         match tp.current_utc_offset {
-            Some(v) => format!("(Some {})", z(v)),
+            Some(v) => format!("(sz {})", n(v)),
             None => "None".into(),
         },
         match tp.leap_indicator {
@@ -317,22 +317,19 @@ impl PortCfg {
             match &self.acceptable {
                 None => "None".to_string(),
                 Some(l) => format!(
-                    "(Some [{}])",
-                    l.iter().map(|x| x.to_string()).collect::<Vec<_>>().join("; ")
+                    "(Some {})",
+                    nlist(&l.iter().map(|x| *x as u128).collect::<Vec<_>>())
                 ),
             },
             if self.p2p { "P2P" } else { "E2E" },
-            z(self.log_delay),
-            z(self.log_announce),
+            n(self.log_delay),
+            n(self.log_announce),
             self.receipt_timeout,
-            z(self.log_sync),
+            n(self.log_sync),
             coq_bool(self.master_only),
-            z(self.asymmetry),
+            n(self.asymmetry),
             self.minor,
-            format!(
-                "[{}]",
-                self.rng.iter().map(|x| x.to_string()).collect::<Vec<_>>().join("; ")
-            )
+            nlist(&self.rng.iter().map(|x| *x as u128).collect::<Vec<_>>())
         )
     }
 }
@@ -341,7 +338,7 @@ impl InstCfg {
     pub fn coq_setup(&self, ports: &[PortCfg]) -> String {
         format!(
             "(mkSetup (mkIC {} {} {} {} {} {} {} (mkCQ {} {} {})) {} [{}])",
-            self.clock_identity,
+            nu(self.clock_identity as u128),
             self.prio1,
             self.prio2,
             self.domain,
@@ -464,16 +461,16 @@ fn fwd_coq(t: &ForwardedTLV<'_>) -> String {
     let cid_bytes: Vec<u8> = cidb.split(',').map(|x| x.trim().parse().unwrap()).collect();
     let mut c = [0u8; 8];
     c.copy_from_slice(&cid_bytes);
-    let vals: Vec<String> = if val.trim().is_empty() {
+    let vals: Vec<u8> = if val.trim().is_empty() {
         vec![]
     } else {
-        val.split(',').map(|x| x.trim().to_string()).collect()
+        val.split(',').map(|x| x.trim().parse().unwrap()).collect()
     };
     format!(
-        "(mkTlv {} [{}]) (mkPI {} {})",
+        "(mkTlv {} {}) (mkPI {} {})",
         tlv_type_code(ty.trim()),
-        vals.join("; "),
-        u64::from_be_bytes(c),
+        nbytes(&vals),
+        nu(u64::from_be_bytes(c) as u128),
         port.trim()
     )
 }
@@ -491,7 +488,7 @@ fn ctx_coq(c: &TimestampContext) -> String {
         format!(
             "(CtxPDelayResp {} (mkPI {} {}))",
             id.trim(),
-            u64::from_be_bytes(cc),
+            nu(u64::from_be_bytes(cc) as u128),
             port.trim()
         )
     } else if d.contains("PDelayReq") {
@@ -511,16 +508,7 @@ pub fn dur_bits(bits: i128) -> Duration {
 }
 
 pub fn bytes_list(b: &[u8]) -> String {
-    let mut s = String::with_capacity(b.len() * 4 + 2);
-    s.push('[');
-    for (i, x) in b.iter().enumerate() {
-        if i > 0 {
-            s.push_str("; ");
-        }
-        s.push_str(&x.to_string());
-    }
-    s.push(']');
-    s
+    nbytes(b)
 }
 
 /// What the generator wants the host to do next.
@@ -645,7 +633,7 @@ impl Sim {
                 states.push(ds.port_state as u8);
                 mds.push(match ds.delay_mechanism {
                     statime::observability::port::DelayMechanism::P2P { mean_link_delay, .. } => {
-                        format!("(Some {})", z(mean_link_delay.0.to_bits()))
+                        format!("(sz {})", n(mean_link_delay.0.to_bits()))
                     }
                     _ => "None".to_string(),
                 });
@@ -658,7 +646,7 @@ impl Sim {
         let t = self.instance.time_properties_ds();
         let pt = self.instance.path_trace_ds();
         format!(
-            "(mkSnap [{}] (mkDS (mkDD {} {} {} {} {} {} {} {}) {} (mkPD {} {} {} {} {}) [{}] {} {}) [{}])",
+            "(mkSnap (zl [{}]) (mkDS (mkDD {} {} {} {} {} {} {} {}) {} (mkPD {} {} {} {} {}) {} {} {}) [{}])",
             states.iter().map(|x| x.to_string()).collect::<Vec<_>>().join("; "),
             cid_z(&d.clock_identity),
             d.number_ports,
@@ -674,7 +662,7 @@ impl Sim {
             cq_coq(&p.grandmaster_clock_quality),
             p.grandmaster_priority_1,
             p.grandmaster_priority_2,
-            pt.list.iter().map(cid_z).collect::<Vec<_>>().join("; "),
+            nlist(&pt.list.iter().map(|c| u64::from_be_bytes(c.0) as u128).collect::<Vec<_>>()),
             coq_bool(pt.enable),
             tp_coq(&t),
             mds.join("; ")
@@ -696,26 +684,26 @@ impl Sim {
 
         // printable form of the event (needs sim state for contexts and queues)
         let ev_coq = match &ev {
-            Ev::RecvEvent(p, f, t) => format!("EvRecvEvent {} {} {}", p, bytes_list(f), zu(*t)),
-            Ev::RecvGeneral(p, f) => format!("EvRecvGeneral {} {}", p, bytes_list(f)),
+            Ev::RecvEvent(p, f, t) => format!("EvRecvEvent {}%nat {} {}", p, bytes_list(f), nu(*t)),
+            Ev::RecvGeneral(p, f) => format!("EvRecvGeneral {}%nat {}", p, bytes_list(f)),
             Ev::SendTimestamp(p, k, t) => {
                 if *p >= self.pending.len() || *k >= self.pending[*p].len() {
                     return true; // nothing to return: not an event
                 }
-                format!("EvSendTimestamp {} {} {}", p, self.pending[*p][*k].coq, zu(*t))
+                format!("EvSendTimestamp {}%nat {} {}", p, self.pending[*p][*k].coq, nu(*t))
             }
             Ev::AnnounceTimer(p) => format!(
-                "EvAnnounceTimer {} [{}]",
+                "EvAnnounceTimer {}%nat [{}]",
                 p,
                 self.queues
                     .get(*p)
                     .map(|q| q.iter().map(|f| format!("mkFwd {}", f.coq)).collect::<Vec<_>>().join("; "))
                     .unwrap_or_default()
             ),
-            Ev::SyncTimer(p) => format!("EvSyncTimer {}", p),
-            Ev::DelayReqTimer(p) => format!("EvDelayReqTimer {}", p),
-            Ev::AnnounceReceiptTimer(p) => format!("EvAnnounceReceiptTimer {}", p),
-            Ev::FilterUpdateTimer(p) => format!("EvFilterUpdateTimer {}", p),
+            Ev::SyncTimer(p) => format!("EvSyncTimer {}%nat", p),
+            Ev::DelayReqTimer(p) => format!("EvDelayReqTimer {}%nat", p),
+            Ev::AnnounceReceiptTimer(p) => format!("EvAnnounceReceiptTimer {}%nat", p),
+            Ev::FilterUpdateTimer(p) => format!("EvFilterUpdateTimer {}%nat", p),
             Ev::Bmca => "EvBmca".to_string(),
             Ev::SetClockQuality(q) => format!(
                 "EvSetClockQuality (mkCQ {} {} {})",
@@ -845,7 +833,7 @@ fn tobs_list(o: &[(i64, String)]) -> String {
     format!(
         "[{}]",
         o.iter()
-            .map(|(t, s)| format!("({}, {})", z(*t), s))
+            .map(|(t, s)| format!("(tg {} ({}))", n(*t), s))
             .collect::<Vec<_>>()
             .join("; ")
     )
